@@ -1,6 +1,7 @@
 package chainsim
 
 import (
+	"math/big"
 	"encoding/json"
 	"time"
 
@@ -43,11 +44,20 @@ func (g *Genesis) EffectiveDust(i int) int64 {
 	return g.Dust[i]
 }
 
-func (g *Genesis) EffectiveBalance(i int) int64 {
+func (g *Genesis) EffectiveBalance(i int) *big.Int {
 	if g.outside(i) {
-		return 0
+		return new(big.Int)
 	}
-	return g.Balances[i]
+	return new(big.Int).Mul(big.NewInt(g.Balances[i]), big.NewInt(g.scale(i)))
+}
+
+func (g *Genesis) scale(i int) int64 {
+	for _, k := range g.Kilo {
+		if k == i {
+			return 1000
+		}
+	}
+	return 1
 }
 
 // BuildInitChain renders the trace's genesis into the InitChain request.
@@ -64,7 +74,7 @@ func BuildInitChain(kr *Keyring, g *Genesis) abci.RequestInitChain {
 		a := kr.Get(i)
 		coins := sdk.NewCoins()
 		if g.Balances[i] > 0 {
-			coins = sdk.NewCoins(sdk.NewCoin(sdk.DefaultStakeDenom, sdk.NewInt(g.Balances[i])))
+			coins = sdk.NewCoins(sdk.NewCoin(sdk.DefaultStakeDenom, sdk.NewInt(g.Balances[i]).MulRaw(g.scale(i))))
 		}
 		if i < len(g.Dust) && g.Dust[i] > 0 {
 			coins = coins.Add(sdk.NewCoins(sdk.NewCoin(DustDenom, sdk.NewInt(g.Dust[i]))))
@@ -75,7 +85,7 @@ func BuildInitChain(kr *Keyring, g *Genesis) abci.RequestInitChain {
 			thirdTotal = thirdTotal.Add(sdk.NewInt(g.Third[i]))
 		}
 		accounts = append(accounts, &authTypes.BaseAccount{Address: a.Addr, Coins: coins, PubKey: a.Pub})
-		total = total.Add(sdk.NewInt(g.Balances[i]))
+		total = total.Add(sdk.NewInt(g.Balances[i]).MulRaw(g.scale(i)))
 	}
 	// ---- pos
 	var vals []posTypes.Validator
